@@ -6,6 +6,7 @@ import (
 	"io"
 	"runtime"
 	"sort"
+	"sync/atomic"
 	"time"
 
 	segment "github.com/blugelabs/bluge_segment_api"
@@ -115,7 +116,7 @@ func measure(f func()) uint64 {
 // openMem runs the real loader (index.OpenReader: list, newest first, loadSnapshot with CRC
 // validation, fall back) on an in-memory directory.
 func openMem(d *memDir, tvs []typeVer) (res loadResult, fail *vlib.Failure) {
-	fail = vlib.Watchdog("index.OpenReader", 120*time.Second, func() *vlib.Failure {
+	fail = guarded("index.OpenReader", func() *vlib.Failure {
 		cfg := stubPlugins(index.DefaultConfigWithDirectory(func() index.Directory { return d }), tvs)
 		var snap *index.Snapshot
 		var err error
@@ -150,7 +151,7 @@ func decodeDirect(file []byte) (res directResult, fail *vlib.Failure) {
 	} else {
 		body = nil
 	}
-	fail = vlib.Watchdog("Snapshot.ReadFrom", 120*time.Second, func() *vlib.Failure {
+	fail = guarded("Snapshot.ReadFrom", func() *vlib.Failure {
 		snap := index.VerifNewSnapshot(1, nil)
 		var err error
 		res.Alloc = measure(func() { res.N, err = snap.ReadFrom(bytes.NewReader(body)) })
@@ -162,6 +163,25 @@ func decodeDirect(file []byte) (res directResult, fail *vlib.Failure) {
 		return nil
 	})
 	return res, fail
+}
+
+// guarded runs one call into bluge: a panic becomes a Failure; the site is remembered so that
+// the per-case watchdog (watched) can name where a hang happened.
+var currentSite atomic.Value
+
+func guarded(site string, f func() *vlib.Failure) *vlib.Failure {
+	currentSite.Store(site)
+	return vlib.Guard(site, f)
+}
+
+// watched runs the evaluation of one case under one watchdog.
+func watched(f func() *vlib.Failure) *vlib.Failure {
+	currentSite.Store("harness")
+	r := vlib.Watchdog("case", 180*time.Second, f)
+	if r != nil && r.Key == "hang@case" {
+		r.Key = "hang@" + currentSite.Load().(string)
+	}
+	return r
 }
 
 func allocBound(n int) uint64 { return 64*uint64(n) + 1<<20 }
